@@ -126,6 +126,8 @@ def run(ctx):
     check_fee_lookup_same_asset(ctx, model, T, "C04-V1")
     from .poolvalue import check_raw_balance_single_consumer
     check_raw_balance_single_consumer(ctx, model, T, "C04-V1")
+    from .poolvalue import check_fee_deduction_all_kinds
+    check_fee_deduction_all_kinds(ctx, model, T, "C04-V1")
     check_v2_v3_pool(ctx, model, T, "C04-V3")
     check_v4_min_liquidity(ctx, model, "%s::commands::provide_liquidity" % T, "C04-V4")
     check_no_lp_outflow(ctx, model, T, "C04-V4", "liquidity_token")
@@ -219,7 +221,8 @@ def check_deposit_wiring(ctx, model):
     w = ctx.view(CURVE + "::compute_d", "C04-A5")
     if w is not None:
         check_symmetric(ctx, "C04-A5", w, (2, 3, 4), CURVE + "::compute_d")
-    from .stablemath import check_newton_step
+    from .stablemath import check_newton_step, check_solver_bounds_agree
+    check_solver_bounds_agree(ctx, "C04-A5")
     nd = ctx.view(CURVE + "::compute_next_d", "C04-A5")
     if nd is not None:
         check_newton_step(ctx, "C04-A5", nd, "param(2)", "param(3)", "param(4)", "param(5)", "item(stableswap_3pool::stableswap_math::curve::N_COINS)", CURVE + "::compute_next_d")
